@@ -8,7 +8,7 @@ LEVEL = 'translation_validation'
 def run(run, scr, tier, seed, only=None):
     run.assumptions += skelprops.TRUSTED + ['ExpandA / ExpandS / Power2Round / pkEncode are uninterpreted here (Power2Round, CoeffFrom*: C15; codecs: C08)', 'serialised output = pkEncode / skEncode of the struct fields: into_bytes obligations (tag C04/C09) + C18 transform lemmas']
     e1 = wrapc.harnesses(['keygen'], 'C04')
-    skelprops.run_prop(run, scr, tier, seed, 'C04', e1=e1, diff=('keygen',), diff_load=(6, 0), only=only)
+    skelprops.run_prop(run, scr, tier, seed, 'C04', e1=e1, diff=('keygen', 'keygen_search'), diff_load=(6, 0), only=only)
     return run.finish(
         rule='obligations: call sequence / argument provenance of key_gen_internal equal Algorithm 6 (H(xi||k||l) split 32/64/32 into rho, rho\', K; ExpandS(rho\'), ExpandA(rho); t; Power2Round; tr = H(pkEncode(rho,t1),64)); '
              'returned structs hold the prescribed values; closures equal the FIPS formulas (SMT); RNG-driven entry point = seeded entry point on the drawn bytes (Kani)',
